@@ -470,7 +470,12 @@ func runChunk(self string, p *core.Prop, ctx *core.Ctx, a *agg, from, to, sample
 		if begun >= 0 && !done[begun] {
 			// the child died while executing case `begun`
 			key, detail := classifyDeath(out, exit)
-			if harnessOwnDeath(out) {
+			if exit == 3 || exit == 4 {
+				// the worker's own watchdog / memory guard ended the process (exit codes 3 and 4 are only
+				// ever produced there); it fired for the previous case just as this one was begun, so
+				// nothing was observed about this case
+				a.add(&core.Result{I: begun, Verdict: core.Inconclusive, Key: "watchdog", Detail: "worker watchdog exit raced with the start of this case"})
+			} else if harnessOwnDeath(out) {
 				// the harness's own reference evaluator (plain Go recursion) ran out of stack:
 				// nothing was observed about the code under test
 				a.add(&core.Result{I: begun, Verdict: core.Inconclusive, Key: "reference-evaluator-out-of-stack", Detail: core.Trunc(detail, 600)})
